@@ -50,6 +50,9 @@ func runLinz(o Opts) *Result {
 		}
 		rng := rand.New(rand.NewSource(o.Seed*9176 + int64(idx)*37))
 		kind := kinds[idx%3]
+		if o.Profile == "c09pair" {
+			kind = []string{"sharded", "shardedOf"}[idx%2] // (SyncMap keys entries by the key itself: no collisions)
+		}
 		strategy := rng.Intn(3)
 		stress := o.Profile == "c08cleanup"
 		if stress {
@@ -72,7 +75,7 @@ func runLinz(o Opts) *Result {
 		_ = b.Write(ctx, keyBytes[7], 901)
 		// filler entries, written once and never touched again except by the batch operations: several per shard
 		nFill := 0
-		if idx%2 == 0 {
+		if idx%2 == 0 && o.Profile != "c09pair" {
 			nFill = 400
 		}
 		for i := 0; i < nFill; i++ {
@@ -99,6 +102,9 @@ func runLinz(o Opts) *Result {
 		written[6][900], written[7][901] = true, true
 		nG := 2 + rng.Intn(7)
 		nOps := 2 + rng.Intn(4)
+		if o.Profile == "c09pair" {
+			nG, nOps = 2+rng.Intn(3), 4+rng.Intn(5)
+		}
 		type plan struct {
 			kind string
 			k, v int
@@ -109,6 +115,23 @@ func runLinz(o Opts) *Result {
 		for g := 0; g < nG; g++ {
 			for i := 0; i < nOps; i++ {
 				p := plan{k: 1 + rng.Intn(5)}
+				if o.Profile == "c09pair" {
+					// the colliding pair only, many deletes and writes of both twins: an operation on one key of the pair must
+					// never act on the entry of the other, whatever happens between its key check and its removal
+					p.k = 4 + rng.Intn(2)
+					switch x := rng.Intn(20); {
+					case x < 7:
+						val++
+						p.kind, p.v = "w", val
+						written[p.k][p.v] = true
+					case x < 16:
+						p.kind = "d"
+					default:
+						p.kind = "r"
+					}
+					plans[g] = append(plans[g], p)
+					continue
+				}
 				if o.Profile == "c18del" {
 					// one key, many concurrent deletes, no batch operations: every successful delete must remove a stored entry
 					p.k = 1
